@@ -129,10 +129,13 @@ theorem C18_no_ub (a b : E C) : equalX N a b ≠ .ub := no_ub N a b
 `lean/MpVerif/Gen/C18.lean` is regenerated on every run by `translators/gen_expr_c18.py` from clang's typed
 AST of the instantiated `src/expr.cc`: entry of `mp::Equal` / `std::hash<mp::Expr>`, the dispatch of all 71
 kinds through `BasicExprVisitor` to the terminal handler of `ExprComparator` / `ExprHasher`, the body of every
-loop-free handler (which fields are compared / hashed, in which order, through which primitive), the seed of
-`Hash(e)` and the arithmetic of `HashCombine`.  The theorems below say that the hand model `equalX` / `hashX`
-satisfies exactly the recursion equations of that generated description, so every theorem above is a theorem
-about the fixed point of the translated code; the four loop-carrying handlers are tied by their syntax trees. -/
+handler — loop-free ones as conjunctions / hash chains (which fields, in which order, through which overload of
+`HashCombine`, i.e. which `std::hash<T>`), the four loop-carrying ones as index loops —, the seed of `Hash(e)` and
+the arithmetic of `HashCombine`.  `C18_gen_equal_step` / `C18_gen_hash_step`: the hand model `equalX` / `hashX`
+satisfies the recursion equations of that generated description (meaning in `GenSem.lean`); `C18_gen_equal_unique` /
+`C18_gen_hash_unique`: nothing else does.  So every theorem above is a theorem about *the* function the translated
+code defines.  `C18_gen_helper_*` and `C18_gen_hashCombine_instances` are tripwires (comparison with a committed
+expectation: they detect a change of the small `expr.h` members whose meaning `GenSem` assumes, they prove nothing). -/
 section gen
 open MpVerif.Gen.C18
 
@@ -236,6 +239,45 @@ theorem C18_gen_helper_PLTerm_breakpoint : helperShape_PLTerm_breakpoint = Froze
 theorem C18_gen_helper_PLTerm_num_breakpoints : helperShape_PLTerm_num_breakpoints = Frozen.helperShape_PLTerm_num_breakpoints := rfl
 theorem C18_gen_helper_PLTerm_slope : helperShape_PLTerm_slope = Frozen.helperShape_PLTerm_slope := rfl
 theorem C18_gen_helper_StringLiteral_value : helperShape_StringLiteral_value = Frozen.helperShape_StringLiteral_value := rfl
+
+theorem C18_gen_helper_BasicExprFactory_Copy : helperShape_BasicExprFactory_Copy = Frozen.helperShape_BasicExprFactory_Copy := rfl
+theorem C18_gen_helper_BasicExprFactory_MakeStringLiteral : helperShape_BasicExprFactory_MakeStringLiteral = Frozen.helperShape_BasicExprFactory_MakeStringLiteral := rfl
+/-- tripwire: the `std::hash<T>` the hasher reaches (hypothesis `hc` of `C18_hash_congr` is about `std::hash<double>`,
+the function `Prim.dbl` fields go through; `P.hDbl` in `hashStep`) -/
+theorem C18_gen_hashCombine_instances :
+    hashCombineInstances = ["bool", "char", "char *const", "double", "int", "mp::Expr"] := rfl
+
+/-- The recursion equations of the translated comparator have exactly one solution. -/
+theorem C18_gen_equal_unique (f : E C → E C → R)
+    (hf : ∀ a b, f a b = equalStep N equalEntry cmpBody f a b) (a b : E C) : f a b = equalX N a b := by
+  suffices H : ∀ n (a : E C), sizeOf a ≤ n → ∀ b, f a b = equalX N a b from H _ a (Nat.le_refl _) b
+  intro n
+  induction n with
+  | zero =>
+    intro a ha
+    cases a <;> simp at ha
+  | succ n ih =>
+    intro a ha b
+    rw [hf a b, C18_gen_equal_step N a b]
+    apply equalStep_congr
+    intro x hx y
+    exact ih x (by have := isPart_lt a x hx; omega) y
+
+/-- … and so have those of the translated hasher. -/
+theorem C18_gen_hash_unique (f : E C → Option UInt64)
+    (hf : ∀ a, f a = hashStep P hashEntry hashBody hashCombine hashSeed f a) (a : E C) : f a = hashX P a := by
+  suffices H : ∀ n (a : E C), sizeOf a ≤ n → f a = hashX P a from H _ a (Nat.le_refl _)
+  intro n
+  induction n with
+  | zero =>
+    intro a ha
+    cases a <;> simp at ha
+  | succ n ih =>
+    intro a ha
+    rw [hf a, C18_gen_hash_step P a]
+    apply hashStep_congr
+    intro x hx
+    exact ih x (by have := isPart_lt a x hx; omega)
 
 end gen
 
